@@ -77,6 +77,11 @@ func genCaseC05(t *rapid.T) *Case {
 	c.Assign, c.AnyInstalled = GenAssign(t, g, strategy)
 	c.Warm = GenWarm(t, s, p)
 	c.Op = d.Ops[0].Name
+	if rapid.IntRange(0, 2).Draw(t, "tightDepth") == 0 {
+		// the depth limit of the process is what this request needs, nothing to spare: inside the
+		// limit every value is still converted
+		c.TightDepth = rapid.IntRange(1, 2).Draw(t, "tightDepthPlus")
+	}
 	// some resolvers hand their value over together with an error: the value still has to be
 	// brought into the shape of the declared type (or replaced by null)
 	if rapid.Bool().Draw(t, "valueWithError") {
